@@ -147,4 +147,62 @@ theorem locate_complete (a : Adapter) (flags : Nat) (seq read : Bytes) (hlen : s
     · exact absurd h hren
     · exact h
 
+
+/-! ### transporting occurrences to what the aligner is run on -/
+
+theorem RawSound.toReverse {aw rw : Bool} {c : Nat} {thr : Nat → Nat} {mo : Nat} {seq read : Bytes}
+    {as ae rs re e : Nat} (h : RawSound aw rw c thr mo seq read as ae rs re e) :
+    RawSound aw rw c thr mo seq.reverse read.reverse (seq.length - ae) (seq.length - as)
+      (read.length - re) (read.length - rs) e := by
+  have h' : RawSound aw rw c thr mo seq.reverse.reverse read.reverse.reverse as ae rs re e := by
+    rw [List.reverse_reverse, List.reverse_reverse]; exact h
+  have := h'.reverse
+  simpa using this
+
+theorem RawSound.toUpperRead {aw rw : Bool} {c : Nat} {thr : Nat → Nat} {mo : Nat} {seq read : Bytes}
+    {as ae rs re e : Nat} (h : RawSound aw rw c thr mo seq read as ae rs re e) :
+    RawSound aw rw c thr mo seq (read.map asciiUpper) as ae rs re e := by
+  obtain ⟨⟨b1, b2, b3, b4⟩, hov, ⟨s, hl, hr, hc⟩, htol⟩ := h
+  refine ⟨⟨b1, b2, b3, by rw [List.length_map]; exact b4⟩, hov, ?_, htol⟩
+  obtain ⟨h1, h2, h3⟩ := script_map id asciiUpper (docMatch aw rw) (docMatch aw rw) c s
+    (fun x _ y => (docMatch_upper aw rw x y).symm)
+  exact ⟨_, by rw [h1, hl]; simp, by rw [h2, hr, seg_map], by rw [h3]; exact hc⟩
+
+/-- the prefix comparer reports every full-length occurrence at the start of the read that needs no indel -/
+theorem comparePrefix_complete (a : Adapter) (c : Nat) (seq read : Bytes)
+    (hup : ∀ x ∈ seq, ¬ (97 ≤ x ∧ x ≤ 122)) (hmo : a.minOverlap = seq.length) {re d : Nat}
+    (hocc : RawSound a.adapterWildcards a.readWildcards c a.thr a.minOverlap seq read 0 seq.length 0 re d)
+    (hd : d < c) : comparePrefix (cmpCfg a) seq read ≠ none := by
+  obtain ⟨⟨_, _, _, b4⟩, _, ⟨s, hl, hr, hc⟩, htol⟩ := hocc
+  obtain ⟨hn, hh⟩ := no_indel_script (docMatch a.adapterWildcards a.readWildcards) c s (by omega)
+  rw [hl, hr, seg_zero_length] at hn hh
+  rw [seg_length' _ _ _ b4] at hn
+  have hre : re = seq.length := by omega
+  subst hre
+  unfold comparePrefix
+  simp only [cmpEncodeRef_eq_map, cmpEncodeQuery_eq_map, List.length_map]
+  have hmm := mismatches_map (!(cmpCfg a).wildQuery && !(cmpCfg a).wildRef) (cencR (cmpCfg a).wildRef (cmpCfg a).wildQuery)
+    (encQ (cmpCfg a).wildRef (cmpCfg a).wildQuery) (docMatch a.adapterWildcards a.readWildcards)
+    (fun x y => docMatch_eq_comparer a.adapterWildcards a.readWildcards x y) seq read
+  rw [hmm, hamming_take]
+  have hseg : seg read 0 seq.length = read.take seq.length := by simp [seg]
+  rw [← hseg, cmpEffLen_eq a seq hup]
+  have hmo' : (cmpCfg a).minOverlap = seq.length := hmo
+  rw [hmo']
+  have hthr : (cmpCfg a).thr = a.thr := rfl
+  rw [hthr]
+  have hmin : min seq.length read.length = seq.length := by omega
+  rw [hmin]
+  rw [if_neg]
+  · simp
+  · simp only [Bool.or_eq_true, decide_eq_true_eq, not_or, Nat.not_lt]
+    exact ⟨by omega, Nat.le_refl _⟩
+
+theorem compareSuffix_ne_none {c : CmpCfg} {seq read : Bytes} (h : comparePrefix c seq.reverse read.reverse ≠ none) :
+    compareSuffix c seq read ≠ none := by
+  unfold compareSuffix
+  split
+  · next hn => exact absurd hn h
+  · simp
+
 end Cutadapt.MatchSound
